@@ -276,10 +276,20 @@ def handle (i o : Json) : Except String Reply := do
   if let some r := crashReply? i then return r
   let c ← parseCase i
   let g := c.graph
-  -- well-formedness hypothesis of the theorems: the initial stop point is the configured one or the final point
-  if g.stopPoint != some (g.cfgStop.getD g.fcp) then
+  -- well-formedness hypotheses of the theorems (Props/C43R.lean): the initial stop point is the configured one or
+  -- the final point; the flow.cylc stop point lies within the final point; stop-point commands stay within the final
+  -- point; every reloaded definition keeps the final point and the flow.cylc stop point
+  if g.stopPoint != some (g.cfgStopFile.getD g.fcp) || g.cfgStop != g.cfgStopFile ||
+      (match g.cfgStopFile with | some p => decide (p > g.fcp) | none => false) then
     return { model := modelObs c, holds := false,
-             why := s!"graph hypothesis violated: initial stop point {g.stopPoint}, configured {g.cfgStop}, final {g.fcp}" }
+             why := s!"graph hypothesis violated: initial stop point {g.stopPoint}, configured {g.cfgStop} / {g.cfgStopFile}, final {g.fcp}" }
+  for op in c.ops do
+    let ok := match op with
+      | Op.stopPoint p => decide (p ≤ g.fcp)
+      | Op.reload (some g') _ _ => g'.fcp == g.fcp && g'.cfgStopFile == g.cfgStopFile
+      | _ => true
+    if !ok then
+      return { model := modelObs c, holds := false, why := "op hypothesis violated: a stop point beyond the final point or a reload that changes the final point / the flow.cylc stop point" }
   let obs := ((obsList o).map parseOb).toArray
   if obs.size != c.ops.length + 1 then
     return { model := modelObs c, holds := false, why := "trace length differs from the op list" }
